@@ -81,8 +81,11 @@ pub(super) fn handle_prev_state<'i>(
             let err_msg = call_service_failed.message;
             Err(CatchableError::LocalServiceError(call_service_failed.ret_code, err_msg).into())
         }
+        // A pending request of this peer belongs to a call addressed to this peer. The same state met on a call
+        // addressed to somebody else (it can only come from tampered data) is not given a result of the local host.
         RequestSentBy(Sender::PeerIdWithCallId { ref peer_id, call_id })
-            if peer_id.as_str() == exec_ctx.run_parameters.current_peer_id.as_str() =>
+            if peer_id.as_str() == exec_ctx.run_parameters.current_peer_id.as_str()
+                && tetraplet.peer_pk.as_str() == exec_ctx.run_parameters.current_peer_id.as_str() =>
         {
             // call results are identified by call_id that is saved in data;
             // for compatiblity with JavaScript with binary formats, string IDs are used
